@@ -103,7 +103,8 @@ fn check_sun(h: &CaseH, c: &SunCase) -> Verdict {
     };
     if alt >= 0.5 {
         h.class("sun-up");
-        vensure!((sp.altitude as f64 - alt).abs() <= 0.02, "C20:sunpos:altitude", "altitude {} (lat {}, decl {}, hour angle {}), spherical astronomy {:.4}", sp.altitude, c.lat, c.decl, c.ha, alt);
+        // (an f32 arc sine cannot resolve better than about 0.03 degrees next to 90 degrees)
+        vensure!((sp.altitude as f64 - alt).abs() <= if alt > 85.0 { 0.05 } else { 0.02 }, "C20:sunpos:altitude", "altitude {} (lat {}, decl {}, hour angle {}), spherical astronomy {:.4}", sp.altitude, c.lat, c.decl, c.ha, alt);
         // compare as directions
         let (a, z) = ((sp.altitude as f64).to_radians(), (sp.azimuth as f64).to_radians());
         let lib = [a.cos() * z.sin(), -a.cos() * z.cos(), a.sin()];
@@ -495,6 +496,14 @@ fn sun_facing_grid(fine: bool) -> Vec<SunCase> {
             }
             decl += if fine { 0.5 } else { 1.0 };
         }
+    }
+    // the sun at the zenith (latitude = declination at solar noon) over a horizontal surface, and just off it
+    let mut d = -23.45f32;
+    while d <= 23.46 {
+        for (dl, dh) in [(0.0f32, 0.0f32), (0.001, 0.0), (0.0, 0.001), (-0.001, 0.002), (0.0, -0.001)] {
+            v.push(SunCase { lat: d + dl, decl: d, ha: dh, tilt: 0.0, az: 0.0 });
+        }
+        d += 0.01;
     }
     v
 }
